@@ -96,7 +96,7 @@ fn hook(e: SchedEvent) {
             sh.ctl.lock().unwrap().notified = true;
         }
         // the harnesses here never flush into a level 0 at the stall threshold
-        SchedEvent::IngestStalled => {}
+        SchedEvent::IngestStalled | SchedEvent::IngestWoke => {}
     }
 }
 
